@@ -39,6 +39,29 @@ macro_rules
         truthy_str, truthy_none, truthy_list, truthy_dict, truthy_record,
         Val.asList, Val.asInt, isNone, builtin, intsOf, anyM, allM, compM, forLoop, List.lookup, $ls,*])
 
+/-- running a block that is written as two pieces -/
+theorem execBlock_append (X : Ext) (a b : List Stmt) (st : St) :
+    execBlock X (a ++ b) st = match execBlock X a st with | .next st' => execBlock X b st' | r => r := by
+  induction a generalizing st with
+  | nil => simp [execBlock]
+  | cons x xs ih =>
+    simp only [List.cons_append, execBlock]
+    cases exec X x st <;> simp [ih]
+
+/-- what a METHOD call leaves behind, read off its final flow: returned value, effect trace, final value of `self`
+    (the variable `self`) -/
+def obsFlow (self : String) : Flow → Res (Val × List Val × Val)
+  | .next st => match st.env.lookup self with | some s => .ok (.none, st.out, s) | Option.none => .stuck
+  | .ret v st => match st.env.lookup self with | some s => .ok (v, st.out, s) | Option.none => .stuck
+  | .raise e => .raise e
+  | .stuck => .stuck
+
+theorem runSelf_eq_obsFlow (X : Ext) (f : Fn) (args : List Val) (p : String) (ps : List String) (h : f.params = p :: ps) :
+    f.runSelf X args = obsFlow p (f.flow X args) := by
+  unfold Fn.runSelf obsFlow
+  rw [h]
+  cases f.flow X args <;> rfl
+
 /-- entering a call with the callee's own parameter list and body is `Fn.flow` of the callee -/
 theorem enterCall_eq_flow (X : Ext) (f : Fn) (vs : List Val) :
     enterCall f.params vs (execBlock X f.body) = f.flow X vs := by
